@@ -297,6 +297,20 @@ func (o *out) typ(level int, t *Type) {
 			o.ln(level+1, "...", false)
 		}
 		for _, f := range t.Fields {
+			if len(f.Inplace) > 0 {
+				ln, col := o.ln(level+1, RenderName(f.Name)+" <:", true)
+				o.mark("field", f.ID, "", ln, col)
+				for _, g := range f.Inplace {
+					gl, gc := o.ln(level+2, RenderName(g.Name)+" <: "+o.l.typeExpr(g.T), true)
+					o.mark("field", g.ID, "", gl, gc)
+				}
+				continue
+			}
+			if f.List != nil {
+				ln, col := o.ln(level+1, RenderName(f.Name)+sizeStr(f.List)+" <: "+o.l.typeExpr(f.T)+o.l.attrList(f.Attrs), true)
+				o.mark("field", f.ID, "", ln, col)
+				continue
+			}
 			text := RenderName(f.Name) + " <: " + o.l.typeExpr(f.T) + o.l.attrList(f.Attrs)
 			if f.Doc != "" {
 				text += " " + QuoteD(f.Doc)
@@ -488,6 +502,15 @@ func (o *out) member(level int, owner *App, m Member) {
 		o.ln(level, "-|> "+o.l.appName(m.Mixin), true)
 	case m.Anno != nil:
 		o.anno(level, owner.ID, *m.Anno)
+	case m.Collector != nil:
+		o.ln(level, ".. * <- *:", true)
+		for _, s := range m.Collector {
+			if s.Kind == "call" {
+				o.ln(level+1, o.l.appName(s.Target)+" <- "+s.Ep+o.l.attrList(s.Attrs), true)
+			} else {
+				o.ln(level+1, s.Text+o.l.attrList(s.Attrs), true)
+			}
+		}
 	}
 }
 
